@@ -128,6 +128,8 @@ def run(ctx):
     res["inputs"] += fr["messages"]
     res["families"]["tls_frames"] = fr["messages"]
     ctx.cov["evaluations"] = res["calls"]
+    ctx.sample({"corpus item": corpus[0]["name"], "bytes": len(corpus[0]["bytes"]), "TLV nodes from TLC": per_item.get(corpus[0]["name"], [])[:4]})
+    ctx.sample({"handshake frame template from HSFrame": tmpls[len(tmpls) // 2], "one of the short strings put into it": tstrs[len(tstrs) // 3]["s"]})
     ctx.cov["distinct_nontrivial"] = res["inputs"]
     ctx.cov["exhaustive"] = False
     ctx.cov["rule"] = ("corpus item x {every truncation; per byte the substitutions 00 01 7f 80 ff b^1 b^80; per TLV node (from TLC) length := 0, len-1, len+1, 0x80, 0x84ffffffff and 11 tag swaps; "
